@@ -118,6 +118,7 @@ def _patch_logged(contract_cls):
     import sys as _sys
     from . import dsl as _dsl
     _dsl._FLOG.clear()
+    del _dsl._TLOG[:]
     undo = []
     for fq in getattr(_sys.modules.get(contract_cls.__module__), "LOGGED_FUNCTIONS", []):
         modname, _, short = fq.rpartition(".")
